@@ -3,6 +3,9 @@ import RactorModel.Lemmas.FactoryCountW
 import RactorModel.Lemmas.FactorySlotInst
 import RactorModel.Lemmas.FactoryHandler
 import RactorModel.Lemmas.FactoryStop
+import RactorModel.Lemmas.FactoryActors
+import RactorModel.Lemmas.FactoryNoPanic
+import RactorModel.Lemmas.FactoryNoDrop
 
 /-!
 # C13 — Factory: every job meets exactly one fate, never runs twice
@@ -135,6 +138,193 @@ theorem dispatchJob_to_dead_keeps_job (p : WP) (e : Env) (j : Job) (a : Actor)
   unfold WP.dispatchJob Env.cast
   simp [ha, hdead]
 
+/-- (at most one job per worker death, ACTOR level — `_partial`: finding F4 excluded by
+`noStaleRun`) For every configuration, EVERY sequence of operations in which no worker is killed while
+one of its completion reports is still unprocessed, and every instant `t` at which an operation is
+applied: whichever live worker actor dies now (kill, Err, panic), at most ONE job is lost with it —
+the log grows by at most one `lost` event, the one job that incarnation held (running or in its
+mailbox). Workers that exit because the factory told them to stop hold nothing at all
+(`stopped_workers_hold_nothing_partial`). The unconditional statement is false: witness `f4Steps`
+below (one death loses jobs 2 and 3). -/
+theorem one_job_lost_per_death_partial (c : CaseCfg) (steps : List Step) (t : Nat)
+    (hns : noStaleRun (init c) steps = true) :
+    let w := W.advanceTo t (advanceFuel ((init c).runSteps steps) t) ((init c).runSteps steps)
+    w.stopped = false → ∀ aid a, w.env.getActor aid = some a → a.alive = true →
+      ∃ l, (w.env.die aid).log = w.env.log ++ l ∧ l.length ≤ 1 ∧ ∀ ev ∈ l, ∃ id, ev = Ev.lost aid id := by
+  intro w hs aid a g hal
+  have hle := ((j_at c steps t hns).core hs).held_le_one g hal
+  refine ⟨a.heldJobs.map (fun j => Ev.lost aid j.id), (die_loses_only_held w.env a aid g hal).1, by simpa using hle, ?_⟩
+  intro ev hev
+  obtain ⟨j, _, rfl⟩ := List.mem_map.mp hev
+  exact ⟨j.id, rfl⟩
+
+/-- … and a live worker actor that is no pool slot's worker any more (retired by a shrink or after
+its last job while draining) is idle and has been told to stop: its exit loses nothing. -/
+theorem stopped_workers_hold_nothing_partial (c : CaseCfg) (steps : List Step) (hns : noStaleRun (init c) steps = true) :
+    let w := (init c).runSteps steps
+    w.stopped = false → ∀ aid a, w.env.getActor aid = some a → a.alive = true →
+      (∀ p ∈ w.pool, p.actor ≠ aid) → a.heldJobs = [] ∧ a.stopReq = true := by
+  intro w hs aid a g hal hn
+  exact ((j_always c steps hns).core hs).free aid a g hal hn
+
+/-- (progress, safety form — `_partial` under `noStaleRun`) For every configuration and EVERY sequence of
+operations without a stale completion, while the factory has not entered `post_stop`: a job queued for a worker
+(`message_queue` non-empty) waits only behind
+(i) a job that this worker's live actor holds (running or in its mailbox), or
+(ii) a completion report of this worker that the factory has still to process, or
+(iii) the death of this worker, whose supervision event the factory has still to process —
+and each of the three ends with the head of the queue being handed over (`worker_complete`, `replace_worker`).
+So no job is ever parked in a worker's queue behind nothing: "ends in a fate" needs only that workers return and
+that the factory's mailbox is served. (Factory queue of the queuer: `C14.queuer_never_idles`.) -/
+theorem queued_jobs_wait_behind_work_partial (c : CaseCfg) (steps : List Step) (hns : noStaleRun (init c) steps = true) :
+    let w := (init c).runSteps steps
+    w.stopped = false → ∀ p ∈ w.pool, p.mq ≠ [] →
+      ∃ a, w.env.getActor p.actor = some a ∧
+        ((a.alive = true ∧ (a.heldJobs ≠ [] ∨ finKeys p.wid w.inbox ≠ [])) ∨
+         (a.alive = false ∧ p.actor ∈ w.env.sup)) := by
+  intro w hs p hp hmq
+  have hc := (j_always c steps hns).core hs
+  obtain ⟨a, g, _, hal, hdead⟩ := hc.sa p hp
+  refine ⟨a, g, ?_⟩
+  cases hx : a.alive with
+  | false => exact Or.inr ⟨rfl, (hdead hx).1⟩
+  | true =>
+    left
+    refine ⟨rfl, ?_⟩
+    have hcurr : p.curr ≠ [] := by
+      rcases hc.prog p hp (by simp) hmq with h1 | ⟨a', g', hd'⟩
+      · exact h1
+      · rw [g] at g'; cases g'; rw [hx] at hd'; cases hd'
+    have heq := (hal hx).2
+    by_cases hh : a.heldJobs = []
+    · right
+      intro hf
+      have : fkOf w.inbox p.wid = [] := hf
+      rw [hh, this] at heq
+      simp only [List.map_nil, List.append_nil, List.map_eq_nil_iff] at heq
+      exact hcurr heq
+    · exact Or.inl hh
+
+/-- (jobs queued for a worker that dies are given to its replacement — the hand-over itself) `replace_worker` on a
+slot whose queue starts with a job `j` that has not expired, with the freshly built actor open: `j` is the replacement's
+first message (appended to its — empty — mailbox), the rest of the queue stays queued in order, and the slot books `j`
+as its one job in flight. Whatever the dead incarnation had in flight is forgotten (`curr_jobs` cleared): those jobs are
+the `lost` ones of `die_loses_only_held`. -/
+theorem replacement_gets_next_queued_job (p : WP) (e : Env) (naid : Nat) (j : Job) (rest : List Job) (a : Actor)
+    (hmq : p.mq = j :: rest) (hne : j.expired e.now = false) (ha : e.getActor naid = some a) (hal : a.alive = true) :
+    (p.replaceWorker e naid).1.mq = rest ∧ (p.replaceWorker e naid).1.curr = [(j.key, j.id)] ∧
+    (p.replaceWorker e naid).1.actor = naid ∧
+    (p.replaceWorker e naid).2.getActor naid = some { a with mailbox := a.mailbox ++ [j] } := by
+  have haid : a.aid = naid := getActor_aid ha
+  have hn : ¬ ((!a.alive) = true) := by rw [hal]; exact Bool.false_ne_true
+  have hgn : getNextNonExpired p.handler (j :: rest) (p.curr.foldl (fun acc x => acc.erase x.1) p.pending) e =
+      (some j, rest, p.curr.foldl (fun acc x => acc.erase x.1) p.pending, e) := by
+    unfold getNextNonExpired
+    simp only [hne, Bool.not_false, if_true]
+  have hcast : e.cast naid j = some (e.setActor { a with mailbox := a.mailbox ++ [j] }) := by
+    unfold Env.cast
+    simp only [ha]
+    rw [if_neg hn]
+  generalize ha' : ({ a with mailbox := a.mailbox ++ [j] } : Actor) = a' at hcast ⊢
+  have haid' : a'.aid = naid := by subst ha'; exact haid
+  have hgs := getActor_setActor_self e a a' (by rw [haid']; exact ha)
+  rw [haid'] at hgs
+  unfold WP.replaceWorker WP.getNext
+  simp only [hmq, hgn]
+  unfold WP.dispatchJob
+  simp only [hcast]
+  exact ⟨trivial, by first | rfl | simp [currInsert], trivial, hgs⟩
+
+/-! ## TTL expiry at the two dequeue points -/
+
+/-- (worker dequeue, `get_next_non_expired_job`) whatever the worker's queue holds, the job handed on is not
+expired at that instant, it comes from the queue, and the queue that remains is a suffix of the old one (only the
+expired jobs in front of it were removed — each reported `TtlExpired`, see `conservation`). -/
+theorem worker_dequeue_skips_expired (h : Option Nat) (mq : List Job) (pend : List Nat) (e : Env) (j : Job)
+    (hj : (getNextNonExpired h mq pend e).1 = some j) :
+    j.expired e.now = false ∧ ∃ skipped, mq = skipped ++ j :: (getNextNonExpired h mq pend e).2.1 ∧
+      ∀ x ∈ skipped, x.expired e.now = true := by
+  induction mq generalizing pend e with
+  | nil => simp [getNextNonExpired] at hj
+  | cons x rest ih =>
+    unfold getNextNonExpired at hj ⊢
+    by_cases hx : x.expired e.now = true
+    · simp only [hx, Bool.not_true, Bool.false_eq_true, if_false] at hj ⊢
+      have hnow : (e.discard h .ttlExpired x).now = e.now := rfl
+      obtain ⟨h1, sk, h2, h3⟩ := ih (pend.erase x.key) (e.discard h .ttlExpired x) hj
+      rw [hnow] at h1 h3
+      refine ⟨h1, x :: sk, by rw [List.cons_append, ← h2], ?_⟩
+      intro y hy
+      rcases List.mem_cons.mp hy with hy | hy
+      · rw [hy]; exact hx
+      · exact h3 y hy
+    · have hx' : x.expired e.now = false := by simpa using hx
+      simp only [hx', Bool.not_false, if_true, Option.some.injEq] at hj ⊢
+      subst hj
+      exact ⟨hx', [], rfl, fun _ hy => by cases hy⟩
+
+/-- (factory dequeue, first loop of `try_route_next_active_job`) after the expired jobs at the head have been
+discarded, the job at the head of the factory queue — the one the routing loop hands to the router next — is not
+expired, for both queue types. -/
+theorem factory_dequeue_skips_expired (fuel : Nat) (w : W) (hf : w.queue.length < fuel) (j : Job)
+    (hj : qPeek (W.dropExpiredHead fuel w).cfg (W.dropExpiredHead fuel w).queue = some j) :
+    j.expired (W.dropExpiredHead fuel w).env.now = false := by
+  induction fuel generalizing w with
+  | zero => omega
+  | succ fuel ih =>
+    unfold W.dropExpiredHead at hj ⊢
+    cases hpk : qPeek w.cfg w.queue with
+    | none => simp only [hpk] at hj ⊢; cases hj
+    | some x =>
+      simp only [hpk] at hj ⊢
+      by_cases hx : x.expired w.env.now = true
+      · simp only [hx, if_true] at hj ⊢
+        cases hp : qPopFront w.cfg w.queue with
+        | none =>
+          exfalso
+          have := qPopFront_none hp
+          exact qPeek_some_ne_nil hpk this
+        | some xq =>
+          obtain ⟨x', q'⟩ := xq
+          simp only [hp] at hj ⊢
+          have hlen := popByPrio_length (show popByPrio w.cfg prioUp w.queue = some (x', q') from hp)
+          exact ih _ (by simp only; omega) hj
+      · have hx' : x.expired w.env.now = false := by simpa using hx
+        simp only [hx', Bool.false_eq_true, if_false] at hj ⊢
+        rw [hpk] at hj
+        simp only [Option.some.injEq] at hj
+        subst hj; exact hx'
+
+/-! ## The factory never reaches its `panic!` -/
+
+/-- (`RouteResult::Backlog` with a targeted worker, `try_route_next_active_job`: `panic!`, which would kill the
+factory with everything it has queued) For every configuration — five routers, both queues, with and without a
+rate limiter — and EVERY sequence of operations, the model never takes that branch: no `panicked` event in any
+history, so the ghost fate `dropped` of that branch never occurs either and conservation speaks about real fates
+while the factory runs. Proof: whatever `choose_target_worker` names for the head of the queue, the second
+consultation inside `route_message` (with that pick as the hint) finds a worker of the pool, for each router
+(`Factory.second_choice`); for round-robin this needs the F10 fix. -/
+theorem never_panics (c : CaseCfg) (steps : List Step) : Ev.panicked ∉ ((init c).runSteps steps).env.log :=
+  never_panics_run c steps
+
+/-- (the ghost fate `dropped`) For every configuration and EVERY sequence of operations: as long as the factory
+actor has not exited, no job has been dropped without a report. With `never_panics`, `post_stop_abandons_nothing`
+and `conservation`: while the factory runs, every accepted job is in exactly one place or has one of the REPORTED
+fates (handled, handed to the discard handler, lost with a dead worker). The only source of `dropped` is a
+dispatch still in the factory's mailbox when the factory actor exits (its acceptance port is then closed,
+seen as `acc=[id:x]`). -/
+theorem never_drops_while_running (c : CaseCfg) (steps : List Step)
+    (hx : ((init c).runSteps steps).exited = false) (id : Nat) :
+    Ev.dropped id ∉ ((init c).runSteps steps).env.log :=
+  never_drops_run c steps hx id
+
+/-- the step behind it, for ANY state (reachable or not): routing the job with the router's own pick as
+the hint never answers `Backlog` -/
+theorem targeted_route_never_backlogs (w : W) (j : Job) (hint : Option Nat) (worker : Nat) (w1 : W)
+    (hc : w.chooseTargetWorker j hint = (some worker, w1)) (q : List Job) :
+    (W.routeMessage { w1 with queue := q } j (some worker)).1 ≠ .backlog :=
+  routeMessage_after_choice w j hint worker w1 hc q
+
 /-! ### Non-vacuity: a concrete run (queuer, one worker): job 1 handled, job 2 running -/
 def exCase : CaseCfg :=
   { cfg := { router := .q, prioQueue := false, hasHandler := true, table := [], hasCC := false }, n := 1, disc := none, rl := none }
@@ -144,6 +334,8 @@ def exSteps : List Step :=
 example : accepted 1 (init exCase) exSteps = 1 ∧ exSteps.countP (isDispatchOp 1) ≤ 1 := by decide
 example : cTerm 1 ((init exCase).runSteps exSteps).env.log = 1 := by decide
 example : cj 2 (((init exCase).runSteps exSteps).env.actors.flatMap Actor.heldJobs) = 1 := by decide
+/-- the hypotheses of the actor-level theorems hold of this run (a live worker holds job 2) -/
+example : noStaleRun (init exCase) exSteps = true ∧ ((init exCase).runSteps exSteps).stopped = false := by decide +kernel
 
 /-! ### Finding F4 on its concrete witness: "at most one job per worker death" is FALSE of the code
 
@@ -304,6 +496,15 @@ end C13
 #print axioms C13.accepted_job_is_somewhere
 #print axioms C13.no_job_from_nowhere
 #print axioms C13.one_job_per_death_partial
+#print axioms C13.one_job_lost_per_death_partial
+#print axioms C13.stopped_workers_hold_nothing_partial
+#print axioms C13.queued_jobs_wait_behind_work_partial
+#print axioms C13.replacement_gets_next_queued_job
+#print axioms C13.worker_dequeue_skips_expired
+#print axioms C13.factory_dequeue_skips_expired
+#print axioms C13.never_panics
+#print axioms C13.never_drops_while_running
+#print axioms C13.targeted_route_never_backlogs
 #print axioms C13.die_loses_only_held
 #print axioms C13.dispatchJob_to_dead_keeps_job
 #print axioms C13.handler_sync
